@@ -34,6 +34,8 @@ structure State where
   rows : Nat := 0
   pendingRows : Nat := 0
   blocked : Nat := 0
+  /-- the matcher waits before the commit of a batch it has sent (`wpause`) -/
+  paused : Bool := false
   subs : List DSub := []
 deriving Inhabited
 
@@ -141,7 +143,7 @@ def step (st : State) (toks : List String) : Option (State × String) :=
           s!"ok r{rows} eoq:0")
   | ["w", kind, n] => do
     let n ← n.toNat?
-    if !st.inited || n > 30000 || st.blocked > 0 then none else
+    if !st.inited || n > 30000 || st.blocked > 0 || st.paused then none else
     let k ← if kind = "ins" then (if n = 0 then none else some 0) else if kind = "upd" then some 1 else if kind = "del" then some 2 else none
     let a := if k = 0 then n else min n st.rows
     let e := emitN st.env a
@@ -151,17 +153,32 @@ def step (st : State) (toks : List String) : Option (State × String) :=
           s!"ok ev={a} sent={e.sent}")
   | ["wblock", n] => do
     let n ← n.toNat?
-    if !st.inited || n > 2000 || st.blocked > 0 || st.env.published ≠ st.env.sent || n ≤ evtCap then none else
+    if !st.inited || n > 2000 || st.blocked > 0 || st.paused || st.env.published ≠ st.env.sent || n ≤ evtCap then none else
     let e := emitN st.env evtCap
     pure ({ st with env := e, segs := st.segs ++ [⟨st.env.sent, st.env.sent + n, 0⟩], blocked := n - evtCap,
                     pendingRows := st.rows + n }, s!"ok sent={e.sent}")
+  | ["wpause", kind, n] => do
+    -- one batch of `a` changes sent, the matcher held before its commit: `a` × `emit`, no `commit`
+    let n ← n.toNat?
+    if !st.inited || st.blocked > 0 || st.paused || n = 0 || n ≥ evtCap then none else
+    let k ← if kind = "ins" then some 0 else if kind = "upd" then some 1 else if kind = "del" then some 2 else none
+    let a := if k = 0 then n else min n st.rows
+    if a = 0 then none else
+    let e := sendBatch st.cfg st.env a
+    let rows := if k = 0 then st.rows + a else if k = 2 then st.rows - a else st.rows
+    pure ({ st with env := e, segs := st.segs ++ [⟨st.env.sent, e.sent, k⟩], pendingRows := rows, paused := true },
+          s!"ok ev={a} sent={e.sent}")
   | ["commit"] =>
+    if st.inited && st.paused then
+      let e := commitBatch st.cfg st.env
+      some ({ st with env := e, paused := false, rows := st.pendingRows }, s!"ok sent={e.sent}")
+    else
     if !st.inited || st.blocked = 0 then none else
     let e := emitN st.env st.blocked
     let e := { e with committed := e.sent }
     some ({ st with env := e, blocked := 0, rows := st.pendingRows }, s!"ok sent={e.sent}")
   | ["prune"] =>
-    if !st.inited || st.blocked > 0 then none else
+    if !st.inited || st.blocked > 0 || st.paused then none else
     let e := stepEnv st.cfg st.env .prune
     some ({ st with env := e }, s!"ok pruned={e.pruned}")
   | ["pub", k] => do
